@@ -72,6 +72,9 @@ func dumpMsg(pfx string, m interface{}) []string {
 func randString(r *rng) string { return string(r.bytesN(r.strLen())) }
 
 func listLen(r *rng) int {
+	if r.small {
+		return r.intn(4)
+	}
 	switch r.intn(12) {
 	case 0, 1, 2:
 		return 0
@@ -113,7 +116,11 @@ func fillMsg(r *rng, m interface{}) {
 					continue
 				}
 				n := 0
-				switch r.intn(8) {
+				k := r.intn(8)
+				if r.small {
+					k = 4 + r.intn(4)
+				}
+				switch k {
 				case 0:
 					n = 0
 				case 1:
@@ -124,6 +131,9 @@ func fillMsg(r *rng, m interface{}) {
 					n = r.intn(70000)
 				default:
 					n = r.intn(200)
+					if r.small {
+						n = r.intn(40)
+					}
 				}
 				f.Val.SetBytes(r.bytesN(n))
 				continue
